@@ -177,7 +177,7 @@ def pytorch_stft_frame_computer(
         )
     sig_len = sig.size(0)
     if sig_len < frame_length // 2 + 1:
-        return sig.new_empty((0, num_filts))
+        return sig.new_empty((0, num_filts + int(include_energy)))
     zero = sig.new_zeros(1)
     if not centered:
         pad_left = 0
